@@ -95,10 +95,22 @@ proof fn lemma_claimed_bound(bytes: Seq<u8>, p0: nat, k: nat)
         assert(k * 0x100_0007 == (k - 1) * 0x100_0007 + 0x100_0007) by (nonlinear_arith) requires k > 0;
     }
 }
-// "identical results": every decoder is proved against the same spec functions, so two decoders that accept the same input agree
+// "identical results": every decoder is proved against the same spec functions, so two decoders that accept the same input agree.
+// (a) two decoders that both stand behind the declared payload afterwards (async, stream; sync on a frame-exact chunk)
 proof fn lemma_single_decoders_agree(bytes: Seq<u8>, pos: nat, w0: Seq<u8>, wa: Seq<u8>, pa: nat, ra: (usize, u32), wb: Seq<u8>, pb: nat, rb: (usize, u32))
     requires single_ok(bytes, pos, w0, wa, pa, ra), single_ok(bytes, pos, w0, wb, pb, rb),
     ensures /*@C07*/ ra == rb, /*@C07*/ wa == wb, /*@C07*/ pa == pb,
+{}
+// (b) the SYNC decoder (a) against the async one (b), for arbitrary stored bytes: same pair, same data ALWAYS; same reader position exactly when the
+// chunk is frame-exact -- the hypothesis "identical results" really needs (it holds for every chunk serialize_chunk writes: lemma_serialized_frame_exact)
+proof fn lemma_sync_async_agree(bytes: Seq<u8>, pos: nat, w0: Seq<u8>, wa: Seq<u8>, pa: nat, ra: (usize, u32), wb: Seq<u8>, pb: nat, rb: (usize, u32))
+    requires single_ok_sync(bytes, pos, w0, wa, pa, ra), single_ok(bytes, pos, w0, wb, pb, rb),
+    ensures /*@C07*/ ra == rb, /*@C07*/ wa == wb, /*@C07*/ pa <= pb, /*@C07*/ frame_exact_at(bytes, pos) <==> pa == pb,
+{}
+// on a frame-exact chunk the sync decoder delivers exactly `single_ok`
+proof fn lemma_sync_exact(bytes: Seq<u8>, pos: nat, w0: Seq<u8>, w1: Seq<u8>, pos1: nat, ret: (usize, u32))
+    requires single_ok_sync(bytes, pos, w0, w1, pos1, ret), frame_exact_at(bytes, pos),
+    ensures /*@C07*/ single_ok(bytes, pos, w0, w1, pos1, ret),
 {}
 proof fn lemma_multi_decoders_agree(bytes: Seq<u8>, p0: nat, w0: Seq<u8>, wa: Seq<u8>, na: usize, ia: Seq<u32>, wb: Seq<u8>, nb: usize, ib: Seq<u32>)
     requires multi_ok(bytes, p0, w0, wa, na, ia), multi_ok(bytes, p0, w0, wb, nb, ib), ia.len() == ib.len(),
@@ -114,14 +126,26 @@ proof fn lemma_multi_decoders_agree(bytes: Seq<u8>, p0: nat, w0: Seq<u8>, wa: Se
 
 // composition with U-CHUNKSER (same codec spec functions, prelude/xorbidx_codec.rs): what serialize_chunk is proved to append for `chunk`
 // (8-byte header with |payload| and |chunk| in the length fields, a valid scheme byte hs, decode_spec(hs, payload) == chunk), placed at `pos`
+// (... and, last conjunct, the payload is frame-exact: U-CHUNKSER proves it for serialize_chunk from U-CODEC's `consumed_spec(s, compress(s,x)) == |compress(s,x)|`)
 spec fn serialized_at(bytes: Seq<u8>, pos: nat, chunk: Seq<u8>) -> bool {
     &&& well_formed_at(bytes, pos)
     &&& chunk_ulen(bytes, pos) == chunk.len()
     &&& chunk_scheme(bytes, pos) matches Some(hs) && decode_spec(hs, bytes.subrange(pos as int + 8, pos as int + 8 + chunk_clen(bytes, pos))) == chunk
+        && frame_exact(hs, bytes.subrange(pos as int + 8, pos as int + 8 + chunk_clen(bytes, pos)))
 }
+// every chunk serialize_chunk wrote is frame-exact in the sense of the decoders' shared specification
+proof fn lemma_serialized_frame_exact(bytes: Seq<u8>, pos: nat, chunk: Seq<u8>)
+    requires serialized_at(bytes, pos, chunk),
+    ensures /*@C07*/ frame_exact_at(bytes, pos),
+{}
 // decode(serialize(c)) == c: any decoder satisfying single_ok returns exactly the chunk, its length, and skips exactly the serialized form
 proof fn lemma_roundtrip(bytes: Seq<u8>, pos: nat, chunk: Seq<u8>, w0: Seq<u8>, w1: Seq<u8>, pos1: nat, ret: (usize, u32))
     requires serialized_at(bytes, pos, chunk), single_ok(bytes, pos, w0, w1, pos1, ret),
+    ensures /*@C07*/ w1 == w0 + chunk, /*@C07*/ ret.1 == chunk.len(), /*@C07*/ pos1 == pos + ret.0,
+{}
+// ... and so does the SYNC decoder (single_ok_sync is all it guarantees on arbitrary bytes; on serializer output that is enough)
+proof fn lemma_roundtrip_sync(bytes: Seq<u8>, pos: nat, chunk: Seq<u8>, w0: Seq<u8>, w1: Seq<u8>, pos1: nat, ret: (usize, u32))
+    requires serialized_at(bytes, pos, chunk), single_ok_sync(bytes, pos, w0, w1, pos1, ret),
     ensures /*@C07*/ w1 == w0 + chunk, /*@C07*/ ret.1 == chunk.len(), /*@C07*/ pos1 == pos + ret.0,
 {}
 
@@ -165,8 +189,9 @@ impl CompressionScheme {
     fn decompress_from_slice(&self, data: &[u8]) -> (r: Result<Vec<u8>, CasObjectError>)
         ensures r matches Ok(d) ==> d@ == decode_spec(*self, data@)
     { unimplemented!() }
-    // decompress_from_reader over `reader.take(limit)`: reads every byte the Take yields (min(limit, rest of input)), writes the decoded
-    // data to the writer, returns its length
+    // decompress_from_reader over `reader.take(limit)`: the Take yields `avail` = min(limit, rest of input) bytes; the codec consumes
+    // consumed_spec(scheme, those bytes) of them (U-CODEC: all for None, the lz4 frame up to its end mark for LZ4 / BG4 -- NOT necessarily all),
+    // writes the decoded data to the writer, returns its length.  Clause by clause what U-CODEC proves for decompress_from_reader.
     #[verifier::external_body]
     fn vx_decompress_from_take<R: Read, W: Write>(&self, reader: &mut R, take: &mut TakeStub, writer: &mut W) -> (r: Result<u64, CasObjectError>)
         ensures
@@ -177,7 +202,8 @@ impl CompressionScheme {
                 let avail = if p + old(take).limit <= b.len() { old(take).limit as nat } else { (b.len() - p) as nat };
                 let d = decode_spec(*self, b.subrange(p as int, (p + avail) as int));
                 &&& p <= b.len()
-                &&& final(reader).pos() == p + avail
+                &&& final(reader).pos() == p + consumed_spec(*self, b.subrange(p as int, (p + avail) as int))
+                &&& consumed_spec(*self, b.subrange(p as int, (p + avail) as int)) <= avail
                 &&& final(writer).written() == old(writer).written() + d
                 &&& n == d.len()
             }),
@@ -202,7 +228,11 @@ impl CompressionScheme {
     ensures
         /*@AUX*/ final(reader).bytes() == old(reader).bytes(),   // frame: reading never changes the input
         /*@AUX*/ old(writer).written().is_prefix_of(final(writer).written()),
-        /*@C07*/ r matches Ok(ret) ==> single_ok(old(reader).bytes(), old(reader).pos(), old(writer).written(), final(writer).written(), final(reader).pos(), ret),
+        // for arbitrary stored bytes: pair, data, and the reader behind what the codec consumed ...
+        /*@C07*/ r matches Ok(ret) ==> single_ok_sync(old(reader).bytes(), old(reader).pos(), old(writer).written(), final(writer).written(), final(reader).pos(), ret),
+        // ... which is behind the declared payload (= what the async decoder does) when the chunk is frame-exact
+        /*@C07*/ r matches Ok(ret) ==> (frame_exact_at(old(reader).bytes(), old(reader).pos())
+            ==> single_ok(old(reader).bytes(), old(reader).pos(), old(writer).written(), final(writer).written(), final(reader).pos(), ret)),
 //@ end
 
 //@ extract cas_object/src/cas_chunk_format.rs fn deserialize_chunk
@@ -210,13 +240,18 @@ impl CompressionScheme {
 //@ contract
     ensures
         /*@AUX*/ final(reader).bytes() == old(reader).bytes(),   // frame: reading never changes the input
-        /*@C07*/ r matches Ok((buf, c, u)) ==> single_ok(old(reader).bytes(), old(reader).pos(), Seq::empty(), buf@, final(reader).pos(), (c, u)),
+        /*@C07*/ r matches Ok((buf, c, u)) ==> single_ok_sync(old(reader).bytes(), old(reader).pos(), Seq::empty(), buf@, final(reader).pos(), (c, u)),
+        /*@C07*/ r matches Ok((buf, c, u)) ==> (frame_exact_at(old(reader).bytes(), old(reader).pos())
+            ==> single_ok(old(reader).bytes(), old(reader).pos(), Seq::empty(), buf@, final(reader).pos(), (c, u))),
 //@ end
 
 //@ extract cas_object/src/cas_chunk_format.rs fn deserialize_chunks_to_writer
 //@ ret r
 //@ contract
     requires multi_domain(old(reader).bytes(), old(reader).pos()), old(reader).pos() <= old(reader).bytes().len(),
+        // domain of the SYNC multi-chunk decoders: every chunk is frame-exact (serializer output).  Outside it the loop continues INSIDE the declared
+        // payload of a chunk with slack after its lz4 frame, i.e. walks other positions than walk_pos (see notes: sync/async differential)
+        frames_exact(old(reader).bytes(), old(reader).pos()),
     ensures
         /*@AUX*/ final(reader).bytes() == old(reader).bytes(),   // frame: reading never changes the input
         /*@C07*/ r matches Ok((n, idx)) ==> multi_ok(old(reader).bytes(), old(reader).pos(), old(writer).written(), final(writer).written(), n, idx@),
@@ -230,6 +265,7 @@ impl CompressionScheme {
             /*@C07*/ writer.written() == w0 + concat_data(b, p0, k),
         invariant
             /*@AUX*/ reader.bytes() == b, b == old(reader).bytes(), p0 == old(reader).pos(), w0 == old(writer).written(), multi_domain(b, p0), p0 <= b.len(),
+            /*@AUX*/ frames_exact(b, p0),
             /*@C07*/ chunk_byte_indices@.len() == k + 1,
             /*@C07*/ forall|i: int| 0 <= i <= k ==> chunk_byte_indices@[i] == total_len(b, p0, i as nat),
             /*@C07*/ num_uncompressed_written == total_len(b, p0, k),
@@ -259,6 +295,7 @@ impl CompressionScheme {
 //@ ret r
 //@ contract
     requires multi_domain(old(reader).bytes(), old(reader).pos()), old(reader).pos() <= old(reader).bytes().len(),
+        frames_exact(old(reader).bytes(), old(reader).pos()),   // (see deserialize_chunks_to_writer)
     ensures
         /*@AUX*/ final(reader).bytes() == old(reader).bytes(),   // frame: reading never changes the input
         /*@C07*/ r matches Ok((buf, idx)) ==> multi_data_ok(old(reader).bytes(), old(reader).pos(), Seq::empty(), buf@, idx@),
